@@ -2264,6 +2264,138 @@ fn channel_reload_battery(_a: &mut Vec<i128>) -> String {
 	format!("{} {}", bad, total)
 }
 
+/// phantom_fulfill_probe: a payment to a phantom node over a real channel is claimed; the sender must be able to read the
+/// fulfil attribution data of both hops - the real receiving node and the phantom hop (which reports zero). The test
+/// utilities and the assertions below check every step; output `1`.
+fn phantom_fulfill_probe(_a: &mut Vec<i128>) -> String {
+	use lightning::events::Event;
+	use lightning::ln::channelmanager::{PaymentId, MIN_CLTV_EXPIRY_DELTA};
+	use lightning::ln::msgs::{BaseMessageHandler, ChannelMessageHandler};
+	use lightning::ln::outbound_payment::RecipientOnionFields;
+	use lightning::routing::router::{find_route, PaymentParameters, RouteHint, RouteHintHop, RouteParameters};
+	use lightning::routing::gossip::RoutingFees;
+	use lightning::sign::{NodeSigner, Recipient};
+
+	// When a payment to a phantom node is claimed, the fulfill attribution data must be readable by
+	// the sender for every hop on the path, i.e. both the real receiving node and the phantom hop.
+	let chanmon_cfgs = create_chanmon_cfgs(2);
+	let node_cfgs = create_node_cfgs(2, &chanmon_cfgs);
+	let node_chanmgrs = create_node_chanmgrs(2, &node_cfgs, &[None, None]);
+	let nodes = create_network(2, &node_cfgs, &node_chanmgrs);
+
+	let channel = create_announced_chan_between_nodes(&nodes, 0, 1);
+
+	let recv_amt_msat = 10_000;
+	let (payment_preimage, payment_hash, payment_secret) =
+		get_payment_preimage_hash(&nodes[1], Some(recv_amt_msat), None);
+	let (route, _phantom_scid) = {
+		let phantom_pubkey = nodes[1].keys_manager.get_node_id(Recipient::PhantomNode).unwrap();
+		let phantom_route_hint = nodes[1].node.get_phantom_route_hints();
+		let payment_params = PaymentParameters::from_node_id(phantom_pubkey, TEST_FINAL_CLTV)
+			.with_bolt11_features(nodes[1].node.bolt11_invoice_features())
+			.unwrap()
+			.with_route_hints(vec![RouteHint(vec![
+				RouteHintHop {
+					src_node_id: nodes[0].node.get_our_node_id(),
+					short_channel_id: channel.0.contents.short_channel_id,
+					fees: RoutingFees { base_msat: channel.0.contents.fee_base_msat, proportional_millionths: channel.0.contents.fee_proportional_millionths },
+					cltv_expiry_delta: channel.0.contents.cltv_expiry_delta,
+					htlc_minimum_msat: None,
+					htlc_maximum_msat: None,
+				},
+				RouteHintHop {
+					src_node_id: phantom_route_hint.real_node_pubkey,
+					short_channel_id: phantom_route_hint.phantom_scid,
+					fees: RoutingFees { base_msat: 0, proportional_millionths: 0 },
+					cltv_expiry_delta: MIN_CLTV_EXPIRY_DELTA,
+					htlc_minimum_msat: None,
+					htlc_maximum_msat: None,
+				},
+			])])
+			.unwrap();
+		let scorer = lightning::util::test_utils::TestScorer::new();
+		let first_hops = nodes[0].node.list_usable_channels();
+		let route_params = RouteParameters::from_payment_params_and_value(payment_params, recv_amt_msat);
+		(
+			find_route(&nodes[0].node.get_our_node_id(), &route_params, nodes[0].network_graph, Some(&first_hops.iter().collect::<Vec<_>>()), nodes[0].logger, &scorer, &Default::default(), &[0u8; 32]).unwrap(),
+			phantom_route_hint.phantom_scid,
+		)
+	};
+	assert_eq!(route.paths[0].hops.len(), 2);
+
+	// Route the HTLC through to the (phantom) destination.
+	let recipient_onion = RecipientOnionFields::secret_only(payment_secret, recv_amt_msat);
+	let payment_id = PaymentId(payment_hash.0);
+	nodes[0]
+		.node
+		.send_payment_with_route(route.clone(), payment_hash, recipient_onion, payment_id)
+		.unwrap();
+	check_added_monitors(&nodes[0], 1);
+	let update_0 = get_htlc_update_msgs(&nodes[0], &nodes[1].node.get_our_node_id());
+	let update_add = update_0.update_add_htlcs[0].clone();
+
+	nodes[1].node.handle_update_add_htlc(nodes[0].node.get_our_node_id(), &update_add);
+	do_commitment_signed_dance(&nodes[1], &nodes[0], &update_0.commitment_signed, false, true);
+
+	expect_htlc_failure_conditions(nodes[1].node.get_and_clear_pending_events(), &[]);
+	nodes[1].node.process_pending_htlc_forwards();
+	expect_htlc_failure_conditions(nodes[1].node.get_and_clear_pending_events(), &[]);
+	nodes[1].node.process_pending_htlc_forwards();
+	lightning::expect_payment_claimable!(
+		nodes[1],
+		payment_hash,
+		payment_secret,
+		recv_amt_msat,
+		None,
+		route.paths[0].hops.last().unwrap().pubkey
+	);
+
+	// Claim and pass the fulfill back to the sender.
+	nodes[1].node.claim_funds(payment_preimage);
+	check_added_monitors(&nodes[1], 1);
+	let claimed = nodes[1].node.get_and_clear_pending_events();
+	assert_eq!(claimed.len(), 1);
+	assert!(matches!(claimed[0], Event::PaymentClaimed { .. }));
+
+	let mut update_1 = get_htlc_update_msgs(&nodes[1], &nodes[0].node.get_our_node_id());
+	assert_eq!(update_1.update_fulfill_htlcs.len(), 1);
+	let fulfill = update_1.update_fulfill_htlcs.remove(0);
+	assert!(fulfill.attribution_data.is_some());
+	nodes[0].node.handle_update_fulfill_htlc(nodes[1].node.get_our_node_id(), fulfill);
+	do_commitment_signed_dance(&nodes[0], &nodes[1], &update_1.commitment_signed, false, false);
+
+	let events = nodes[0].node.get_and_clear_pending_events();
+	let mut saw_path_success = false;
+	for ev in events {
+		if let Event::PaymentPathSuccessful { path, hold_times, .. } = ev {
+			saw_path_success = true;
+			assert_eq!(path.hops.len(), 2);
+			// One hold time for the real receiving node and one for the phantom hop. The final
+			// (phantom) hop always reports zero.
+			assert_eq!(hold_times.len(), 2, "sender failed to read attribution data: {:?}", hold_times);
+			assert_eq!(hold_times[1], 0);
+		}
+	}
+	assert!(saw_path_success);
+	check_added_monitors(&nodes[0], 1);
+
+	for n in nodes.iter() {
+		n.node.get_and_clear_pending_msg_events();
+		n.node.get_and_clear_pending_events();
+		n.chain_monitor.added_monitors.lock().unwrap().clear();
+	}
+	core::mem::forget(nodes);
+	String::from("1")
+}
+
+/// phantom_fulfill_battery: phantom_fulfill_probe, a panic counted as a failure. Output `<failed> <run>`.
+fn phantom_fulfill_battery(_a: &mut Vec<i128>) -> String {
+	match catch_unwind(AssertUnwindSafe(|| phantom_fulfill_probe(&mut vec![]))) {
+		Ok(v) if v == "1" => String::from("0 1"),
+		_ => String::from("1 1"),
+	}
+}
+
 /// monitor_update_battery: scenarios 1-3 of monitor_update_probe, monitor_update_deferred_probe and monitor_update_blocked_probe. Output: `<scenarios that failed or panicked> <scenarios run>`.
 fn monitor_update_battery(_a: &mut Vec<i128>) -> String {
 	let (mut bad, mut total) = (0u32, 0u32);
@@ -2306,6 +2438,8 @@ fn main() {
 			"payment_outcome_battery" => payment_outcome_battery(&mut args),
 			"mpp_outcome_probe" => mpp_outcome_probe(&mut args),
 			"payment_restart_probe" => payment_restart_probe(&mut args),
+			"phantom_fulfill_probe" => phantom_fulfill_probe(&mut args),
+			"phantom_fulfill_battery" => phantom_fulfill_battery(&mut args),
 			"restart_forward_probe" => restart_forward_probe(&mut args),
 			"restart_intercept_probe" => restart_intercept_probe(&mut args),
 			"channel_reload_probe" => channel_reload_probe(&mut args),
